@@ -431,3 +431,17 @@ Print Assumptions C09_compose.
 Print Assumptions C09_compose_list.
 Print Assumptions C09_step_read.
 Print Assumptions C09_compose_read.
+
+(* ---- the sniffer of the model IS reader.inspect_data_section as it stands today ---------------------
+   Blank and comment lines of ~A neither count as rows of the sampling window nor take part in the hyphen
+   test: Model/DataRead.inspect equals, for every input, the function re-translated on this run from /repo
+   (py_inspect_data_section in Gen/Funcs.v); see C02_inspect_current and Proofs/FuncsPinInspect.v. *)
+From Coq Require Import ZArith.
+Require Import Funcs FuncsPinInspect.
+Theorem C09_inspect_current : forall d file first last title subs,
+  py_inspect_data_section (skipn first file) (Z.of_nat first, Z.of_nat last) (List.map sub_pair subs) [ch_hash]
+                          (Some (split_line d))
+  = let (n, subs') := inspect d (body_lines file (mkspos first last title)) subs in
+    Some (ncols_Z n, List.map sub_pair subs').
+Proof. exact inspect_pin. Qed.
+Print Assumptions C09_inspect_current.
